@@ -263,10 +263,10 @@ func combos(n, k int) [][]int {
 
 func init() {
 	fw.Register(&fw.Prop{
-		ID:        "C17",
-		Level:     "model_checking",
-		NoThreads: true,
-		Rule: "4 datasets × {memory, disk, split} × all batches of 2 and 3 queries (quick), plus all of size 4 with every split into two successive batches, and the full 8- and 10-query batches (thorough), from a 10-query alphabet (SELECT *, disjoint and overlapping field subsets in different orders, LIMIT 1, ASOF/UNTIL inside the data and ending before the newest period, PERCENTILE wrap, a consumer failing at row 2, a disk-only query); batch composition is decided by the harness through the iteration intercept and processed by the real doProcessIterations; each batch runs 4× (map iteration order); oracle: every query's rows and error equal its solo run; non-trivial = every batch (>=2 coalesced queries)",
+		ID:          "C17",
+		Level:       "model_checking",
+		NoThreads:   true,
+		Rule:        "4 datasets × {memory, disk, split} × all batches of 2 and 3 queries (quick), plus all of size 4 with every split into two successive batches, and the full 8- and 10-query batches (thorough), from a 10-query alphabet (SELECT *, disjoint and overlapping field subsets in different orders, LIMIT 1, ASOF/UNTIL inside the data and ending before the newest period, PERCENTILE wrap, a consumer failing at row 2, a disk-only query); batch composition is decided by the harness through the iteration intercept and processed by the real doProcessIterations; each batch runs 4× (map iteration order); oracle: every query's rows and error equal its solo run; non-trivial = every batch (>=2 coalesced queries)",
 		Assumptions: []string{"for LIMIT and failing consumers the number of rows (not which rows) is compared, since scan order decides which arrive first"},
 		Shards:      func(tier string) int { return 12 },
 		Budget:      func(tier string) time.Duration { return 25 * time.Minute },
